@@ -17,6 +17,7 @@ from partitura.utils.globals import *
 import partitura
 from tempfile import TemporaryDirectory
 import os, math
+from fractions import Fraction
 
 
 try:
@@ -763,8 +764,10 @@ def estimate_symbolic_duration(
     qdur = dur / div
     if qdur == 0:
         return {}
+    # the tolerance is applied in units of divisions: a notated value is only reported
+    # if it evaluates (symbolic_to_numeric_duration) to the numeric duration it was estimated from
     i = find_nearest(DURS, qdur)
-    if np.abs(qdur - DURS[i]) < eps:
+    if np.abs(qdur - DURS[i]) * div < eps:
         return SYM_DURS[i].copy()
     else:
         # Note when the duration is not found, the we are left with two solutions:
@@ -772,7 +775,7 @@ def estimate_symbolic_duration(
         # 2. The duration is a composite duration
         # For composite duration. We can use the following approach:
         j = find_nearest(COMPOSITE_DURS, qdur)
-        if np.abs(qdur - COMPOSITE_DURS[j]) < eps:
+        if np.abs(qdur - COMPOSITE_DURS[j]) * div < eps:
             if return_com_durations:
                 return copy.copy(SYM_COMPOSITE_DURS[j])
             else:
@@ -792,13 +795,15 @@ def estimate_symbolic_duration(
             i = np.searchsorted(STRAIGHT_DURS, qdur, side="left") - 1
             # NOTE: Guess tuplets (Naive) it doesn't cover composite durations from tied notes.
             type = SYM_STRAIGHT_DURS[i + 1]["type"]
-            normal_notes = 2
-            while (normal_notes * STRAIGHT_DURS[i + 1] / qdur) % 1 > eps:
-                normal_notes += 1
+            # the tuplet ratio normal:actual is the duration relative to the next straight
+            # value, in lowest terms (exact for integer durations)
+            ratio = (Fraction(dur).limit_denominator(10**6) / div) / Fraction(
+                float(STRAIGHT_DURS[i + 1])
+            )
             return {
                 "type": type,
-                "actual_notes": math.ceil(normal_notes * STRAIGHT_DURS[i + 1] / qdur),
-                "normal_notes": normal_notes,
+                "actual_notes": ratio.denominator,
+                "normal_notes": ratio.numerator,
             }
 
 
